@@ -5,6 +5,13 @@ use super::*;
 /// When true, `connection.rs` calls the surrogate instead of `Headers::parse_header_line`.
 pub(crate) static mut SUR_HL: bool = false;
 
+/// A heap-allocated string.  (An error value built only from `String::new()` is promoted to a
+/// constant by rustc, and Kani 0.68 then mis-models the niche-encoded capacity when the real code
+/// drops it: spurious `__rust_dealloc` failures that do not reproduce natively.)
+pub(crate) fn nonconst_string() -> String {
+    String::from("s")
+}
+
 /// Surrogate header-line parser: outcome is a function of the line bytes alone and covers every
 /// class `parse_headers` distinguishes: Ok (no effect / sets content_length / sets expect),
 /// Err(UnsupportedValue) (must be ignored), other Err (must propagate).
@@ -24,11 +31,11 @@ pub(crate) fn sur_header_line(h: &mut Headers, line: &[u8]) -> Result<(), Reques
             Ok(())
         }
         3 => Err(RequestError::HeaderError(HttpHeaderError::UnsupportedValue(
-            String::new(),
-            String::new(),
+            nonconst_string(),
+            nonconst_string(),
         ))),
         4 => Err(RequestError::HeaderError(HttpHeaderError::InvalidFormat(
-            String::new(),
+            nonconst_string(),
         ))),
         5 => {
             // a large content length (exercises the payload limit with big numbers)
@@ -54,7 +61,535 @@ pub(crate) fn set_fields(h: &mut Headers, content_length: u32, expect: bool, chu
     h.chunked = chunked;
 }
 
+pub(crate) fn set_cl(h: &mut Headers, content_length: u32) {
+    h.content_length = content_length;
+}
+
 /// Stub for `String::from_utf8_lossy` (only ever used to build an error *message*).
 pub(crate) fn lossy_stub(_v: &[u8]) -> std::borrow::Cow<'_, str> {
     std::borrow::Cow::Borrowed("")
+}
+
+// ---------------------------------------------------------------------------------------------
+// header-block surrogate for the one-shot parser (C14)
+// ---------------------------------------------------------------------------------------------
+pub(crate) static mut SUR_HB: bool = false;
+
+pub(crate) fn headers_try_from_hook(block: &[u8]) -> Result<Headers, RequestError> {
+    if unsafe { SUR_HB } {
+        crate::request::verif_kani::log_push(3, block);
+        let first = if block.is_empty() { 0 } else { block[0] };
+        if first & 0x80 != 0 {
+            return Err(RequestError::HeaderError(HttpHeaderError::InvalidFormat(nonconst_string())));
+        }
+        let mut h = Headers::default();
+        h.content_length = (first & 0x0f) as u32;
+        Ok(h)
+    } else {
+        Headers::try_from(block)
+    }
+}
+
+// ---------------------------------------------------------------------------------------------
+// C15: header rules, real code
+// ---------------------------------------------------------------------------------------------
+use crate::verif_params::{K as PK, M as PM, N as PN};
+
+fn is_ws(b: u8) -> bool {
+    // Unicode White_Space restricted to ASCII: TAB, LF, VT, FF, CR, SP
+    (b >= 9 && b <= 13) || b == b' '
+}
+
+/// [start, end) of `s` without leading/trailing ASCII whitespace.
+fn trim_ws(s: &[u8]) -> (usize, usize) {
+    let mut a = 0;
+    while a < s.len() && is_ws(s[a]) {
+        a += 1;
+    }
+    let mut e = s.len();
+    while e > a && is_ws(s[e - 1]) {
+        e -= 1;
+    }
+    (a, e)
+}
+
+fn eqb(a: &[u8], b: &[u8]) -> bool {
+    crate::common::verif_kani::bytes_eq(a, b)
+}
+
+fn all_ascii(s: &[u8]) -> bool {
+    let mut i = 0;
+    while i < s.len() {
+        if s[i] >= 0x80 {
+            return false;
+        }
+        i += 1;
+    }
+    true
+}
+
+const NAMES: [&[u8]; 7] = [
+    b"content-length",
+    b"content-type",
+    b"expect",
+    b"transfer-encoding",
+    b"server",
+    b"accept",
+    b"accept-encoding",
+];
+
+fn header_code(h: &Header) -> usize {
+    match h {
+        Header::ContentLength => 0,
+        Header::ContentType => 1,
+        Header::Expect => 2,
+        Header::TransferEncoding => 3,
+        Header::Server => 4,
+        Header::Accept => 5,
+        Header::AcceptEncoding => 6,
+    }
+}
+
+// @harness props=C15,C03 tiers=quick:M=0|M=2|M=6;thorough:M=0|M=1|M=2|M=3|M=4|M=5|M=6 unwind=22 cap=1500 mem=8 covers=2
+// @fn Header::try_from
+// @claim each recognised header name is matched in every letter-case pattern and with whitespace around it, and with nothing else around it: name M with a symbolic case flip on every letter, one arbitrary byte before and one after => recognised (as that header) iff both surrounding bytes are whitespace
+// @bounds the 7 names (one query each); every one of the 2^len case patterns; 1 arbitrary byte on each side
+// @stubs std::str::from_utf8(model:RFC3629-validator)
+#[kani::proof]
+#[kani::stub(std::str::from_utf8, crate::request::verif_kani::from_utf8_stub)]
+#[kani::stub(core::slice::memchr::memchr, crate::request::verif_kani::memchr_stub)]
+fn c15_name_case() {
+    let name = NAMES[PM % 7];
+    let n = name.len();
+    let mut buf = [0u8; 20];
+    let l: u8 = kani::any();
+    let r: u8 = kani::any();
+    buf[0] = l;
+    let mut i = 0;
+    while i < n {
+        let c = name[i];
+        let up: bool = kani::any();
+        buf[1 + i] = if up && c >= b'a' && c <= b'z' { c - 32 } else { c };
+        i += 1;
+    }
+    buf[1 + n] = r;
+    let res = Header::try_from(&buf[..n + 2]);
+    let want = is_ws(l) && is_ws(r);
+    match &res {
+        Ok(h) => {
+            assert!(want, "[C15] header name recognised although it is surrounded by non-whitespace");
+            assert!(header_code(h) == PM % 7, "[C15] header name recognised as a different header");
+            kani::cover!(true, "recognised");
+        }
+        Err(_) => {
+            assert!(!want, "[C15] header name not recognised in some letter-case / whitespace pattern");
+            kani::cover!(l < 0x80 && r < 0x80, "not recognised");
+        }
+    }
+    std::mem::forget(res);
+}
+
+/// expected result of parsing `v` as the Content-Length value: Some(n) or None (InvalidValue)
+fn ref_u32(v: &[u8]) -> Option<u32> {
+    let (a, e) = trim_ws(v);
+    let mut i = a;
+    if i < e && v[i] == b'+' {
+        i += 1;
+    }
+    if i >= e {
+        return None;
+    }
+    let mut acc: u64 = 0;
+    while i < e {
+        let c = v[i];
+        if c < b'0' || c > b'9' {
+            return None;
+        }
+        acc = acc * 10 + (c - b'0') as u64;
+        if acc > u32::MAX as u64 {
+            return None;
+        }
+        i += 1;
+    }
+    Some(acc as u32)
+}
+
+// @harness props=C15,C02,C03,C04 tiers=quick:N=3|N=11;thorough:N=0|N=1|N=2|N=3|N=5|N=9|N=10|N=11|N=12 unwind=N+18 cap=1800 mem=10 covers=3
+// @fn Headers::parse_header_line Header::try_from
+// @claim `Content-Length:<value>`: accepted iff the value, after trimming whitespace, is an optional '+' followed by decimal digits denoting a number <= 2^32-1, and then the stored length is that number; otherwise InvalidValue and the stored length is unchanged
+// @bounds value of exactly N arbitrary ASCII bytes (N=11 reaches 4294967296 and beyond); previous stored length arbitrary
+// @stubs std::str::from_utf8(model:RFC3629-validator)
+#[kani::proof]
+#[kani::stub(std::str::from_utf8, crate::request::verif_kani::from_utf8_stub)]
+#[kani::stub(core::slice::memchr::memchr, crate::request::verif_kani::memchr_stub)]
+fn c15_content_length_value() {
+    let mut line = [0u8; 15 + PN];
+    let name = b"Content-Length:";
+    let mut i = 0;
+    while i < 15 {
+        line[i] = name[i];
+        i += 1;
+    }
+    let v: [u8; PN] = kani::any();
+    kani::assume(all_ascii(&v));
+    i = 0;
+    while i < PN {
+        line[15 + i] = v[i];
+        i += 1;
+    }
+    let mut h = Headers::default();
+    let prev: u32 = kani::any();
+    h.content_length = prev;
+    let r = h.parse_header_line(&line);
+    match ref_u32(&v) {
+        Some(n) => {
+            assert!(r.is_ok(), "[C15,C02] well-formed Content-Length rejected");
+            assert!(h.content_length == n, "[C15,C02,C04] stored Content-Length differs from the decimal value");
+            kani::cover!(PN < 10 || n == u32::MAX, "largest accepted value");
+        }
+        None => {
+            assert!(matches!(r, Err(RequestError::HeaderError(HttpHeaderError::InvalidValue(_, _)))), "[C15,C02] malformed or out-of-range Content-Length not rejected with InvalidValue");
+            assert!(h.content_length == prev, "[C15] rejected Content-Length changed the stored value");
+            kani::cover!(PN < 10 || (v[0] == b'4' && v[9] == b'6'), "just above the range");
+        }
+    }
+    assert!(!h.expect && !h.chunked && h.custom_entries.len() == 0);
+    kani::cover!(r.is_ok());
+    std::mem::forget(r);
+    std::mem::forget(h);
+}
+
+const VNAMES: [&[u8]; 4] = [b"Expect:", b"Transfer-Encoding:", b"Content-Type:", b"Accept:"];
+
+// @harness props=C15,C13,C03 tiers=quick:M=0,N=13|M=1,N=8|M=3,N=11;thorough:M=0,N=12|M=0,N=13|M=0,N=14|M=1,N=7|M=1,N=8|M=1,N=9|M=2,N=10|M=2,N=17|M=3,N=10|M=3,N=11|M=3,N=16|M=3,N=17 unwind=N+20 cap=1800 mem=10 covers=2
+// @fn Headers::parse_header_line Header::try_from MediaType::try_from
+// @claim Expect / Transfer-Encoding / Content-Type / Accept with an arbitrary value: a supported value (100-continue; chunked, identity; text/plain, application/json - modulo surrounding whitespace) has its documented effect and nothing else changes; every other value is reported as UnsupportedValue and changes nothing
+// @bounds header M in {Expect, Transfer-Encoding, Content-Type, Accept}; value of exactly N arbitrary ASCII bytes
+// @stubs std::str::from_utf8(model:RFC3629-validator)
+#[kani::proof]
+#[kani::stub(std::str::from_utf8, crate::request::verif_kani::from_utf8_stub)]
+#[kani::stub(core::slice::memchr::memchr, crate::request::verif_kani::memchr_stub)]
+fn c15_flag_values() {
+    let name = VNAMES[PM % 4];
+    let nl = name.len();
+    let mut line = [0u8; 18 + PN];
+    let mut i = 0;
+    while i < nl {
+        line[i] = name[i];
+        i += 1;
+    }
+    let v: [u8; PN] = kani::any();
+    kani::assume(all_ascii(&v));
+    i = 0;
+    while i < PN {
+        line[nl + i] = v[i];
+        i += 1;
+    }
+    let mut h = Headers::default();
+    let e0: bool = kani::any();
+    let c0: bool = kani::any();
+    h.expect = e0;
+    h.chunked = c0;
+    let a0 = h.accept;
+    let r = h.parse_header_line(&line[..nl + PN]);
+    let (a, e) = trim_ws(&v);
+    let t = &v[a..e];
+    let mut want_ok = false;
+    let mut want_expect = e0;
+    let mut want_chunked = c0;
+    let mut want_accept = a0;
+    match PM {
+        0 => {
+            if eqb(t, b"100-continue") {
+                want_ok = true;
+                want_expect = true;
+            }
+        }
+        1 => {
+            if eqb(t, b"chunked") {
+                want_ok = true;
+                want_chunked = true;
+            } else if eqb(t, b"identity") {
+                want_ok = true;
+            }
+        }
+        _ => {
+            if eqb(t, b"text/plain") {
+                want_ok = true;
+                if PM == 3 {
+                    want_accept = MediaType::PlainText;
+                }
+            } else if eqb(t, b"application/json") {
+                want_ok = true;
+                if PM == 3 {
+                    want_accept = MediaType::ApplicationJson;
+                }
+            }
+        }
+    }
+    if want_ok {
+        assert!(r.is_ok(), "[C15,C13] supported header value rejected");
+        kani::cover!(true, "supported value");
+    } else {
+        assert!(matches!(r, Err(RequestError::HeaderError(HttpHeaderError::UnsupportedValue(_, _)))), "[C15,C13] unsupported header value must be reported as UnsupportedValue (tolerated)");
+        kani::cover!(true, "unsupported value");
+    }
+    assert!(h.expect == want_expect, "[C15,C13] expect flag");
+    assert!(h.chunked == want_chunked, "[C15] chunked flag");
+    assert!(h.accept == want_accept, "[C15] accept media type");
+    assert!(h.content_length == 0 && h.custom_entries.len() == 0);
+    std::mem::forget(r);
+    std::mem::forget(h);
+}
+
+// Accept-Encoding: a list of 3 items, each chosen symbolically from a menu, each padded with a
+// symbolic amount of leading spaces inside a fixed-width field.
+const MENU: [&[u8]; 7] = [
+    b"identity",
+    b"identity;q=0",
+    b"*;q=0",
+    b"gzip",
+    b"*",
+    b"identity;q=0.5",
+    b"deflate;q=0",
+];
+const FW: usize = 16;
+
+// @harness props=C15,C03 tiers=quick:N=2;thorough:N=2|N=3 unwind=56 cap=2400 mem=12 covers=3
+// @fn Encoding::try_from
+// @claim Accept-Encoding lists: rejected (InvalidValue) iff some item is `identity;q=0`, or some item is `*;q=0` and identity is not mentioned anywhere in the value - wherever in the list the items stand; accepted otherwise
+// @bounds lists of N items, each drawn symbolically from a 7-entry menu (identity, identity;q=0, *;q=0, gzip, *, identity;q=0.5, deflate;q=0), each in a 16-byte field with 0..2 symbolic leading spaces
+// @stubs std::str::from_utf8(model:RFC3629-validator)
+#[kani::proof]
+#[kani::stub(std::str::from_utf8, crate::request::verif_kani::from_utf8_stub)]
+#[kani::stub(core::slice::memchr::memchr, crate::request::verif_kani::memchr_stub)]
+fn c15_accept_encoding_list() {
+    let mut val = [b' '; 3 * FW + 2];
+    let mut sel = [0usize; 3];
+    let mut k = 0;
+    while k < PN {
+        let s: usize = kani::any();
+        kani::assume(s < 7);
+        sel[k] = s;
+        let pad: usize = kani::any();
+        kani::assume(pad <= 2);
+        let item = MENU[s];
+        let base = k * (FW + 1);
+        let mut i = 0;
+        while i < item.len() {
+            val[base + pad + i] = item[i];
+            i += 1;
+        }
+        if k + 1 < PN {
+            val[base + FW] = b',';
+        }
+        k += 1;
+    }
+    let total = (PN * (FW + 1)).saturating_sub(1);
+    let r = Encoding::try_from(&val[..total]);
+    let mut has_identity_mention = false;
+    let mut has_id_q0 = false;
+    let mut has_star_q0 = false;
+    k = 0;
+    while k < PN {
+        match sel[k] {
+            0 | 5 => has_identity_mention = true,
+            1 => {
+                has_identity_mention = true;
+                has_id_q0 = true;
+            }
+            2 => has_star_q0 = true,
+            _ => {}
+        }
+        k += 1;
+    }
+    let reject = has_id_q0 || (has_star_q0 && !has_identity_mention);
+    if reject {
+        assert!(matches!(r, Err(RequestError::HeaderError(HttpHeaderError::InvalidValue(_, _)))), "[C15] Accept-Encoding that excludes identity not rejected");
+        kani::cover!(has_star_q0 && !has_id_q0, "*;q=0 without identity");
+    } else {
+        assert!(r.is_ok(), "[C15] acceptable Accept-Encoding rejected");
+        kani::cover!(has_star_q0 && sel[0] == 2, "*;q=0 first, identity later");
+        kani::cover!(!has_star_q0);
+    }
+    std::mem::forget(r);
+}
+
+// @harness props=C15,C03 tiers=quick:N=5;thorough:N=0|N=1|N=3|N=5|N=6 unwind=N+4 cap=1500 mem=8 covers=2
+// @fn Encoding::try_from
+// @claim short Accept-Encoding values: empty => InvalidRequest; invalid UTF-8 => InvalidUtf8String; `*;q=0` alone (modulo whitespace, in any list position) => InvalidValue; everything else of this length is accepted
+// @bounds every byte string of exactly N bytes
+// @stubs std::str::from_utf8(model:RFC3629-validator)
+#[kani::proof]
+#[kani::stub(std::str::from_utf8, crate::request::verif_kani::from_utf8_stub)]
+#[kani::stub(core::slice::memchr::memchr, crate::request::verif_kani::memchr_stub)]
+fn c15_accept_encoding_small() {
+    let v: [u8; PN] = kani::any();
+    let r = Encoding::try_from(&v[..]);
+    if PN == 0 {
+        assert!(matches!(r, Err(RequestError::InvalidRequest)), "[C15] empty Accept-Encoding must be rejected");
+    } else if !crate::request::verif_kani::utf8_valid(&v[..]) {
+        assert!(matches!(r, Err(RequestError::HeaderError(HttpHeaderError::InvalidUtf8String(_)))), "[C15] non-UTF-8 Accept-Encoding must be rejected");
+        kani::cover!(true, "invalid utf-8");
+    } else if all_ascii(&v[..]) {
+        // an item can only be "*;q=0" (5 bytes) at these lengths; "identity" (8) cannot occur
+        let mut bad = false;
+        let mut s = 0;
+        let mut i = 0;
+        while i <= PN {
+            if i == PN || v[i] == b',' {
+                let (a, e) = trim_ws(&v[s..i]);
+                if eqb(&v[s + a..s + e], b"*;q=0") {
+                    bad = true;
+                }
+                s = i + 1;
+            }
+            i += 1;
+        }
+        if bad {
+            assert!(matches!(r, Err(RequestError::HeaderError(HttpHeaderError::InvalidValue(_, _)))), "[C15] `*;q=0` without identity must be rejected");
+        } else {
+            assert!(r.is_ok(), "[C15] acceptable Accept-Encoding rejected");
+        }
+        kani::cover!(PN < 5 || bad, "*;q=0");
+    }
+    std::mem::forget(r);
+}
+
+// @harness props=C15,C02,C03 tiers=quick:N=5|N=7;thorough:N=0|N=1|N=2|N=3|N=4|N=5|N=6|N=7|N=8 unwind=N+12 cap=1800 mem=10 covers=3
+// @fn Headers::parse_header_line Header::try_from Headers::insert_custom_header
+// @claim arbitrary short header lines: invalid UTF-8 => InvalidUtf8String; no colon => InvalidFormat; a name that is not a recognised header => kept as a custom entry with name and value trimmed (split at the first colon); the 6-letter recognised names that fit (expect/accept/server) follow their value rules; nothing else changes
+// @bounds every byte string of exactly N bytes (ASCII for the custom-entry comparison; non-ASCII valid UTF-8 only checked for acceptance)
+// @stubs std::str::from_utf8(model:RFC3629-validator)
+#[kani::proof]
+#[kani::stub(std::str::from_utf8, crate::request::verif_kani::from_utf8_stub)]
+#[kani::stub(core::slice::memchr::memchr, crate::request::verif_kani::memchr_stub)]
+fn c15_generic_line() {
+    let v: [u8; PN] = kani::any();
+    let mut h = Headers::default();
+    let r = h.parse_header_line(&v[..]);
+    if !crate::request::verif_kani::utf8_valid(&v[..]) {
+        assert!(matches!(r, Err(RequestError::HeaderError(HttpHeaderError::InvalidUtf8String(_)))), "[C15,C02] non-UTF-8 header line must be rejected");
+        kani::cover!(PN == 0 || true, "invalid utf-8");
+    } else {
+        let mut colon = PN;
+        let mut i = 0;
+        while i < PN {
+            if v[i] == b':' && colon == PN {
+                colon = i;
+            }
+            i += 1;
+        }
+        if colon == PN {
+            assert!(matches!(r, Err(RequestError::HeaderError(HttpHeaderError::InvalidFormat(_)))), "[C15,C02] header line without colon must be rejected");
+            kani::cover!(PN == 0 || true, "no colon");
+        } else if all_ascii(&v[..]) {
+            let (na, ne) = trim_ws(&v[..colon]);
+            let name = &v[na..ne];
+            let (va, ve) = trim_ws(&v[colon + 1..]);
+            let val = &v[colon + 1 + va..colon + 1 + ve];
+            let mut lower = [0u8; 8];
+            let mut k = 0;
+            while k < name.len() && k < 8 {
+                let c = name[k];
+                lower[k] = if c >= b'A' && c <= b'Z' { c + 32 } else { c };
+                k += 1;
+            }
+            let ln = &lower[..name.len()];
+            if eqb(ln, b"server") {
+                assert!(r.is_ok() && h.custom_entries.len() == 0);
+            } else if eqb(ln, b"expect") || eqb(ln, b"accept") {
+                // no supported value fits
+                assert!(matches!(r, Err(RequestError::HeaderError(HttpHeaderError::UnsupportedValue(_, _)))), "[C15] unsupported value must be tolerated (UnsupportedValue)");
+                assert!(h.custom_entries.len() == 0);
+            } else {
+                assert!(r.is_ok(), "[C15] unknown header must be kept as a custom entry");
+                assert!(h.custom_entries.len() == 1, "[C15] custom entry not stored");
+                let (k0, v0) = h.custom_entries.nth(0).unwrap();
+                assert!(eqb(k0.as_bytes(), name), "[C15] custom header name not trimmed / not verbatim");
+                assert!(eqb(v0.as_bytes(), val), "[C15] custom header value not trimmed / not verbatim");
+                kani::cover!(PN < 4 || (name.len() + 2 < colon && val.len() > 0), "padded custom header");
+            }
+            assert!(h.content_length == 0 && !h.expect && !h.chunked);
+        }
+    }
+    std::mem::forget(r);
+    std::mem::forget(h);
+}
+
+// @harness props=C15,C14,C03 tiers=quick:N=8;thorough:N=0|N=2|N=4|N=6|N=8|N=10 unwind=N+4 cap=1800 mem=10 covers=3
+// @fn Headers::try_from
+// @claim parsing a header block equals parsing its lines one by one: the block is split at every CRLF (and only there), lines are handed to the line parser in order up to the first empty line, UnsupportedValue is ignored and any other error is returned; non-UTF-8 blocks are InvalidRequest
+// @bounds every ASCII block of exactly N bytes; line parser replaced by the surrogate (logs the extent and an arbitrary byte of every line it is given)
+// @stubs std::str::from_utf8(model:RFC3629-validator)
+#[kani::proof]
+#[kani::stub(std::str::from_utf8, crate::request::verif_kani::from_utf8_stub)]
+#[kani::stub(core::slice::memchr::memchr, crate::request::verif_kani::memchr_stub)]
+fn c14_headers_block() {
+    unsafe {
+        SUR_HL = true;
+        crate::request::verif_kani::LOG_N = 0;
+    }
+    let v: [u8; PN] = kani::any();
+    kani::assume(all_ascii(&v));
+    let watch: usize = kani::any();
+    kani::assume(watch < PN + 1);
+    unsafe { crate::request::verif_kani::WATCH = watch };
+    let r = Headers::try_from(&v[..]);
+    // reference: walk the lines
+    let mut want_err = false;
+    let mut want_cl = 0u32;
+    let mut want_expect = false;
+    let mut nlines = 0usize;
+    let mut s = 0usize;
+    let mut done = false;
+    let mut i = 0;
+    while i <= PN && !done {
+        let at_end = i == PN;
+        let at_crlf = i + 1 < PN && v[i] == b'\r' && v[i + 1] == b'\n';
+        if at_end || at_crlf {
+            let line = &v[s..i];
+            if line.is_empty() {
+                done = true;
+            } else {
+                // the surrogate must have been called with exactly this line
+                let (kind, len, d) = unsafe { crate::request::verif_kani::LOG[nlines] };
+                assert!(unsafe { crate::request::verif_kani::LOG_N } > nlines, "[C14,C15] a header line was not handed to the line parser");
+                assert!(kind == 2 && len == line.len(), "[C14,C15] header block split at the wrong place");
+                if watch < len {
+                    assert!(d == line[watch], "[C14,C15] header line bytes");
+                }
+                nlines += 1;
+                match line[0] & 7 {
+                    1 => want_cl = if line.len() > 1 { line[1] as u32 } else { 0 },
+                    2 => want_expect = true,
+                    4 => {
+                        want_err = true;
+                        done = true;
+                    }
+                    5 => want_cl = 0xffff_ff00 | (if line.len() > 1 { line[1] as u32 } else { 0 }),
+                    _ => {}
+                }
+            }
+            s = i + 2;
+            if at_crlf {
+                i += 1;
+            }
+        }
+        i += 1;
+    }
+    assert!(unsafe { crate::request::verif_kani::LOG_N } == nlines, "[C14,C15] line parser called on something that is not a line of the block");
+    match &r {
+        Ok(h) => {
+            assert!(!want_err, "[C14,C15] fatal header error swallowed");
+            assert!(h.content_length == want_cl && h.expect == want_expect, "[C14,C15] block result differs from line-by-line result");
+            kani::cover!(nlines >= 2, "two lines");
+        }
+        Err(_) => {
+            assert!(want_err, "[C14,C15] header block rejected although every line is acceptable");
+            kani::cover!(nlines >= 2, "error on a later line");
+        }
+    }
+    kani::cover!(PN < 4 || (nlines == 1 && s < PN), "lines after the blank line are ignored");
+    std::mem::forget(r);
 }
